@@ -5,11 +5,13 @@ import Eliot.Properties.C20
 #print axioms PP.shown_rest_sorted
 #print axioms PP.compact_single_line
 #print axioms PP.compact_not_single_line_newline_in_key
-#print axioms PP.cli_total_partial
-#print axioms PP.cli_aborts_on_non_object
-#print axioms PP.cli_aborts_on_bad_task_level
-#print axioms PP.cli_total_false
-#print axioms PP.cli_run_partial
+#print axioms PP.cli_total
+#print axioms PP.cli_run_total
+#print axioms PP.cli_reports_non_object
+#print axioms PP.cli_reports_bad_task_level
+#print axioms PP.cli_aborts_on_pformat_recursion
+#print axioms PP.cli_total_needs_pformat
+#print axioms PP.format_error_cases
 #print axioms PP.filter_identity
 #print axioms PP.filter_skip
 #print axioms PP.filter_skip_line
